@@ -78,6 +78,28 @@ def build_scenarios(rng, cases, nrand):
         for i, c in enumerate(cs): scns.append(scn_from_case(rng, fam, i, c, nrand))
     return scns
 
+def header_verdicts(res):
+    """second validation: HdrVerdict_Trace compares the strict reader's verdict on every dumped (bit-flipped) setup header with the decoder's"""
+    import glob
+    tps = [tp for tp in sorted(glob.glob(os.path.join(res['rundir'], 'b*.ndjson'))) if any('"setupbytes"' in l for l in open(tp))]
+    def val(tp): return tp, vlib.validate_trace('HdrVerdict_Trace.tla', 'HdrVerdict_Trace.cfg', tp, timeout=1500)
+    with ThreadPoolExecutor(max_workers=8) as ex: rs = list(ex.map(val, tps))
+    out = dict(judged_valid=0, judged_invalid=0, accepted_though_refused_by_reader=0, states=0)
+    for tp, r in rs:
+        if r['error'] or not r['ok']: res['infra'].append(f'TLC problem (HdrVerdict_Trace) on {tp}: ' + r['out'][-600:]); continue
+        out['states'] += r['distinct']; evs = vlib.read_ndjson(tp)
+        for m in re.finditer(r'"JUDGED (\{.*\})"', r['out']):
+            try: v = json.loads(m.group(1).replace('\\"', '"')); out['judged_valid'] += v['valid']; out['judged_invalid'] += v['invalid']
+            except Exception: pass
+        out['accepted_though_refused_by_reader'] += len(re.findall(r'"DRIFT ', r['out']))
+        for m in re.finditer(r'"VIOL (\{.*\})"', r['out']):
+            try: v = json.loads(m.group(1).replace('\\"', '"'))
+            except Exception: continue
+            v['trace'] = tp; v['script'] = tp[:-7] + '.txt'
+            if 1 <= v['line'] <= len(evs): v['event'] = {k: x for k, x in evs[v['line'] - 1].items() if k not in ('idbytes', 'setupbytes')}
+            res['viols'].append(v)
+    return out
+
 def check_c01(pid, tier, seed, replay=None):
     if replay: return _replay(pid, replay, 'pdh', *TRACE)
     t0 = time.time(); rng = random.Random(seed); q = tier == 'quick'
@@ -102,8 +124,16 @@ def check_c01(pid, tier, seed, replay=None):
             if l == 4 and hs: continue
             ls = PK.opening(l, hs) + sum(([f'psyn 0 {k}' + ('' if (k % 3 == 2 or k == na.get(l, 1) - 1) else ' gp=-1'), 'pout 0', 'pread 0 -1'] for k in range(na.get(l, 0))), []) + ['pclr 0 bdci']
             scns.append(Scn(f'real-L{l}-hs{hs}', ls, 'real-stream-counts', budget=30, cost=len(ls)))
+    # encoder-made setup headers, one to three bits away from the original: the strict reader (SetupParse.tla) and the decoder must agree on those the reader finds well-formed
+    nflip = 160 if q else 6000
+    for i in range(nflip):
+        l = rng.choice([0, 1, 2, 3, 6] if q else links); nb = 40000
+        mut = f'm=flip:{rng.randrange(56, nb)}' if i % 4 else f'm=flips:{rng.randrange(100000)}:{rng.choice([2, 3])}'
+        ls = [f'pnew 0 {l}', 'phdr 0 0', 'phdr 0 1', f'phdr 0 2 {mut} dump', 'pinit 0', 'psyn 0 0', 'pout 0', 'pread 0 -1', 'psyn 0 1', 'pout 0', 'pread 0 -1', 'psyn 0 2', 'pout 0', 'pread 0 -1', 'pclr 0 bdci']
+        scns.append(Scn(f'hdrflip-{i}-L{l}', ls, 'real-header-bit-flips', budget=30, cost=25))
     for s_ in scns: s_.prelude = PK.prelude(links)
     res = run_batch(pid, scns, bindir, 'pdh', *TRACE, prelude=PK.prelude(links))
+    verdicts = header_verdicts(res)
     res['infra'] += pr['infra']
     if any(k == 'infra' for k, _, _ in problems + mcproblems): res['infra'].append('TLC failed on a generator / design-level run')
     def nontrivial(s, evs): return any(e.get('e') == 'SynthInit' and e.get('ret') == 0 for e in evs) and sum(1 for e in evs if e.get('e') == 'Synthesis' and e.get('rs') == 0) >= 3
@@ -111,9 +141,9 @@ def check_c01(pid, tier, seed, replay=None):
     nrej = sum(1 for s in scns for e in res['scn_events'].get(s.name, []) if e.get('e') == 'HeaderIn' and e.get('syn') == 1 and e.get('which') == 2 and e.get('ret') != 0)
     pairs = sorted(set((c['e0'], c['e1']) for c in cases.get('sizes', [])))
     return finish(pid, tier, seed, 'model_checking', scns, res, C01_RULES, t0,
-                  'scenarios = synthetic streams whose identification / setup headers and audio packets are written by TLC from Setup.tla as <<value,bits>> lists: every block-size pair 2^6..2^13 (1 and 2 channels), a family of shapes (residue 0/1/2 with and without stages, ordered / sparse / single-entry / lattice / explicit-value books, floor 0 and floor 1, two submaps with coupling, three modes, 255 channels, floor 1 without partitions) and one-field boundary mutations; codebooks: every length list over 0..3 bits with up to 4 entries (thorough: 0..4 bits, 5 entries) as the book through which floor-1 posts are read, with packets spelling chosen entries codeword by codeword; residue decode: types 0/1/2 x 1-2 channels x coupling x partition sizes with a variable-length classification book, two classes with different cascades and fixed / variable-length value books, floor 1 with class sub-books, packets written by walking the reading order of AudioPacket.tla, each also through a twin set-up that carries the same classes and residue values with one classification word per partition (same spectrum => bit-identical PCM), and with the floor\'s integer domain probed (posts after unwrapping, dB-table index at every bin) against Floor1.tla; the real decoder must accept and initialise every set-up the model calls well-formed, deliver exactly the spec\'s count for every packet of every short/long transition, exact silence for silent spectra, and consume exactly the bits of the codewords the model wrote; plus clean decodes of encoder-made streams in full and half rate; non-trivial = the decoder initialised and decoded at least 3 packets; distinct by script hash',
+                  'scenarios = synthetic streams whose identification / setup headers and audio packets are written by TLC from Setup.tla as <<value,bits>> lists: every block-size pair 2^6..2^13 (1 and 2 channels), a family of shapes (residue 0/1/2 with and without stages, ordered / sparse / single-entry / lattice / explicit-value books, floor 0 and floor 1, two submaps with coupling, three modes, 255 channels, floor 1 without partitions) and one-field boundary mutations; codebooks: every length list over 0..3 bits with up to 4 entries (thorough: 0..4 bits, 5 entries) as the book through which floor-1 posts are read, with packets spelling chosen entries codeword by codeword; residue decode: types 0/1/2 x 1-2 channels x coupling x partition sizes with a variable-length classification book, two classes with different cascades and fixed / variable-length value books, floor 1 with class sub-books, packets written by walking the reading order of AudioPacket.tla, each also through a twin set-up that carries the same classes and residue values with one classification word per partition (same spectrum => bit-identical PCM), and with the floor\'s integer domain probed (posts after unwrapping, dB-table index at every bin) against Floor1.tla; the real decoder must accept and initialise every set-up the model calls well-formed, deliver exactly the spec\'s count for every packet of every short/long transition, exact silence for silent spectra, and consume exactly the bits of the codewords the model wrote; plus clean decodes of encoder-made streams in full and half rate; plus encoder-made setup headers one to three bit flips away from the original, on which the verdict of the strict TLA+ reader (SetupParse.tla + SetupOK) is compared with the decoder\'s (headerin + synthesis_init): what the reader finds well-formed must be accepted; non-trivial = the decoder initialised and decoded at least 3 packets; distinct by script hash',
                   nontrivial,
                   ['claimed: header acceptance of well-formed set-ups, initialisation, per-packet sample counts (every window transition, all 36 size pairs), exact silence; NOT decided: sample values of non-silent spectra (float arithmetic, section 6)',
                    'audio packets are silent-floor packets and pseudo-random bit strings; codeword-level packet synthesis (AudioPacket.tla) is not built', 'TLC, libogg, ASan build of the current tree'],
-                  CHECKER, extra_cov=dict(design_model=mc, generator=gstats, setups_accepted=nacc, setups_refused=nrej, blocksize_pairs=len(pairs)), extra_viol=extra_viol,
+                  CHECKER, extra_cov=dict(design_model=mc, generator=gstats, real_header_verdicts=verdicts, setups_accepted=nacc, setups_refused=nrej, blocksize_pairs=len(pairs)), extra_viol=extra_viol,
                   sample_keys={'e', 'which', 'mut', 'ret', 'k', 'W', 'rs', 'rb', 'n', 'cmp', 'avail', 'used', 'bs0', 'bs1', 'ch'})
